@@ -7,6 +7,7 @@ import (
 	"fmt"
 	"io/ioutil"
 	"net/http"
+	"runtime"
 	"os"
 	"sort"
 	"strconv"
@@ -154,7 +155,15 @@ func (s *cvServer) membership(q *protocol.MembershipDigest) (*protocol.Membershi
 	case "field":
 		m, ok := s.honestMemb(s.log, q.KeyDigest, q.Version)
 		if ok {
-			switch s.alt % 5 {
+			switch s.alt % 7 {
+			case 5: // the echoed key digest is missing or shorter than a digest
+				m.KeyDigest = m.KeyDigest[:s.alt2%4]
+				if s.alt2%5 == 0 {
+					m.KeyDigest = nil
+				}
+			case 6:
+				m.Key = nil
+				m.KeyDigest = []byte{}
 			case 0:
 				m.Exists = !m.Exists
 			case 1:
@@ -411,6 +420,8 @@ func clientvCmd(out *cq.Out, seed uint64, tier string) {
 				out.Violate("C13:insertion-answer-lost-on-the-wire", fmt.Sprintf("the server answered an insertion of %d events with their %d snapshots; the client returned %d snapshots / error %v (%s %s %.100s)", k, k, len(got), cerr, class, site, msg), desc)
 			}
 		}
+		time.Sleep(50 * time.Millisecond)
+		goroutinesBefore := runtime.NumGoroutine()
 		for t := 0; t < sp.rounds; t++ {
 			srv.mu.Lock()
 			srv.fetched, srv.lastMemb, srv.lastIncr, srv.answerErr = nil, nil, nil, false
@@ -597,6 +608,18 @@ func clientvCmd(out *cq.Out, seed uint64, tier string) {
 					out.Violate("C03:honest-answer-rejected:client.IncrementalVerify", fmt.Sprintf("the genuine proof for (%d, %d) of a %d-event log, fetched with client.Incremental, is rejected by IncrementalVerify against the authentic snapshots", s, e, sp.n), desc)
 				}
 			}
+		}
+		// rejected answers must not leave anything running behind (a verifier that is fed hostile answers all day)
+		leaked := 0
+		for w := 0; w < 30; w++ {
+			time.Sleep(100 * time.Millisecond)
+			leaked = runtime.NumGoroutine() - goroutinesBefore
+			if leaked < 40 {
+				break
+			}
+		}
+		if leaked >= 40 {
+			out.Violate("C12:goroutine-leak:client-verification", fmt.Sprintf("after %d verification calls on hostile and honest answers %d goroutines more than before are still alive 3 s later", sp.rounds, leaked), map[string]interface{}{"seed": seed, "log": li, "rounds": sp.rounds, "goroutines_more": leaked})
 		}
 		out.Sample(map[string]interface{}{"log": li, "events": sp.n, "fork_at": sp.forkAt, "rounds": sp.rounds})
 		lg.close()
